@@ -20,6 +20,7 @@ pub mod c03;
 pub mod c04;
 pub mod c05;
 pub mod c09;
+pub mod c11;
 pub mod c14;
 pub mod c18;
 pub mod selftest;
